@@ -295,6 +295,10 @@ func (vc *VC) iMul(a, b *Term) *Term {
 			vc.declSeen["imul!ax"] = true
 			x, y := Atom("x!m", SInt), Atom("y!m", SInt)
 			vc.facts = append(vc.facts, Forall([]*Term{x, y}, Eq(App(f, SInt, x, y), App(f, SInt, y, x)), []*Term{App(f, SInt, x, y)}))
+			// units and zero (products with a factor that is only known to equal 0 or 1)
+			vc.facts = append(vc.facts, Forall([]*Term{x, y}, And(
+				Implies(Eq(y, IntLit64(1)), Eq(App(f, SInt, x, y), x)),
+				Implies(Eq(y, IntLit64(0)), Eq(App(f, SInt, x, y), IntLit64(0)))), []*Term{App(f, SInt, x, y)}))
 			vc.assumed["int mode: products of two symbolic integers are uninterpreted (commutative) unless a lemma supplies more"] = true
 		}
 		return App(f, SInt, a, b)
